@@ -35,6 +35,8 @@ POOL = [
     (("raw", "list"), 0, "return ['v'] + [recurse(a) for a in x]"),     # overriding container (same signature as 0)
     (("raw", "dict"), 0, "return {k: (tag, rec(v)) for k, v in x.items()}", "rec = recurse\ntag = 'c'"),  # recurse reached through a closure cell
     (("type", ("K", 0)), 0, "return ('typeleaf', 10)"),                 # a leaf on type[K0]: the position becomes "complex"
+    # the function's own name at the top level of the body and recurse only inside a nested scope (a generator expression)
+    (("raw", "tuple"), 0, "first = F(x[0]) if x else None\nreturn ('t', first) + tuple(recurse(a) for a in x[1:])"),
 ]
 
 
@@ -258,7 +260,7 @@ def main(tier, seed):
     results = runner.pmap("props.c08", "explore_shape", shapes, kw, chunksize=2)
     return runner.finish(
         PID, tier, seed, t0, results,
-        bounds=dict(classes=3, nodes="<= 5 functions", pool="11 methods (a leaf on type[K0]; one defined in a factory, reaching recurse through a closure cell): list/dict containers via recurse, tuple container naming the root function, an "
+        bounds=dict(classes=3, nodes="<= 5 functions", pool="12 methods (a leaf on type[K0]; one defined in a factory, reaching recurse through a closure cell): list/dict containers via recurse, tuple container naming the root function, an "
                     "overriding list container, leaves on K0/K1/K2/object (one overriding, one using call_next)",
                     graphs="random build histories of 3-6 operations (new / copy / variant / add_mixins / register), half of them followed by a registration on an already used leaf node, + 7 documented patterns; forests "
                            "with fan-in <= 2, depth <= 4", inputs="6 nested inputs (lists, tuples, dicts to depth 3 over instances of the 3 classes and object())",
